@@ -77,6 +77,7 @@ static CellGeom cellGeom(H3Index h, const pq::Frame &fr) {
 
 static void check(const Case &cc) {
     Case c = cc;
+    if (c.g.outer.size() < 3) { DISCARD(); return; }
     int res = c.res;
     pq::LibPoly lp(c.g);
     pq::Frame fr(c.g.outer);
